@@ -163,20 +163,22 @@ def subOf? : Term → Option SubObs
 def obsT (o : Obs) : Term :=
   if o.finished then
     tag "obs" [tag "rets" (o.rets.map (ofList retT)), tag "subs" (o.subs.map subT),
-      tag "rib" (o.rib.map pairT), tag "rows" [nat o.rows.1, nat o.rows.2], tag "extra" [nat o.extra]]
+      tag "rib" (o.rib.map pairT), tag "stale" (o.stale.map bool), tag "rows" [nat o.rows.1, nat o.rows.2],
+      tag "extra" [nat o.extra]]
   else list [sym "stuck"]
 
 def obsOf? : Term → Option Obs
   | .list [.atom "obs", .list (.atom "rets" :: rets), .list (.atom "subs" :: subs), .list (.atom "rib" :: rib),
-           .list [.atom "rows", a, b], .list [.atom "extra", e]] => do
+           .list (.atom "stale" :: stale), .list [.atom "rows", a, b], .list [.atom "extra", e]] => do
       pure { rets := ← rets.mapM (asListOf? retOf?), subs := ← subs.mapM subOf?, rib := ← rib.mapM pairOf?
+             stale := ← stale.mapM asBool?
              rows := (← asNat? a, ← asNat? b), extra := ← asNat? e, staleList := false, finished := true }
   | .list [.atom "hang"] =>
-      some { rets := [], subs := [], rib := [], rows := (0, 0), extra := 0, staleList := false, finished := false }
+      some { rets := [], subs := [], rib := [], stale := [], rows := (0, 0), extra := 0, staleList := false, finished := false }
   | .list [.atom "stuck"] =>
-      some { rets := [], subs := [], rib := [], rows := (0, 0), extra := 0, staleList := false, finished := false }
+      some { rets := [], subs := [], rib := [], stale := [], rows := (0, 0), extra := 0, staleList := false, finished := false }
   | .list [.atom "stale-subscriber-list"] =>
-      some { rets := [], subs := [], rib := [], rows := (0, 0), extra := 0, staleList := true, finished := true }
+      some { rets := [], subs := [], rib := [], stale := [], rows := (0, 0), extra := 0, staleList := true, finished := true }
   | _ => none
 
 end Rbgp.Monitor.Codec
